@@ -22,7 +22,7 @@ def relabel_nodes(
     nodes (counting depth points instead of nodes)."""
     non_terminals = g.non_terminals
     children: list[Any]
-    is_list = is_list or isinstance(i, list)
+    is_list = is_list or isinstance(i, (list, tuple))
     if getattr(i, "gengy_labeled", False):
         return (
             i.gengy_nodes,
@@ -38,7 +38,7 @@ def relabel_nodes(
         distance_to_term = 0
     types_this_way = defaultdict(lambda: [])
     types_this_way[type(i)] = [i]
-    if is_terminal(type(i), non_terminals) and (not isinstance(i, list)):
+    if is_terminal(type(i), non_terminals) and (not isinstance(i, (list, tuple))):
         if not is_builtin(type(i)):
             i.gengy_labeled = True
             i.gengy_distance_to_term = int(g.expansion_depthing)
@@ -52,7 +52,7 @@ def relabel_nodes(
             int(g.expansion_depthing),
         )
     else:
-        if isinstance(i, list):
+        if isinstance(i, (list, tuple)):
             children = [(type(obj), obj) for obj in i]
         elif hasattr(i, "gengy_init_values"):
             children = [(typ[1], i.gengy_init_values[idx]) for idx, typ in enumerate(get_arguments(i))]
@@ -63,12 +63,12 @@ def relabel_nodes(
             nodes, dist, thisway, weighted_nodes = relabel_nodes(
                 c,
                 g,
-                isinstance(c, list),
+                isinstance(c, (list, tuple)),
             )
             abs_adjust = 0 if not is_abstract(t) or not g.expansion_depthing else g.abstract_dist_to_t[t][type(c)]
-            if isinstance(c, list) and g.expansion_depthing:
+            if isinstance(c, (list, tuple)) and g.expansion_depthing:
                 abs_adjust = 1
-            list_adjust = 0 if isinstance(c, list) else 1
+            list_adjust = 0 if isinstance(c, (list, tuple)) else 1
             number_of_nodes += abs_adjust + nodes
             weighted_number_of_nodes += weighted_nodes
             distance_to_term = max(distance_to_term, dist + abs_adjust + list_adjust)
@@ -78,11 +78,12 @@ def relabel_nodes(
     if not is_list:
         weighted_number_of_nodes += distance_to_term
 
-    i.gengy_labeled = True
-    i.gengy_distance_to_term = distance_to_term
-    i.gengy_nodes = number_of_nodes
-    i.gengy_weighted_nodes = weighted_number_of_nodes
-    i.gengy_types_this_way = types_this_way
+    if not isinstance(i, tuple):  # tuples cannot carry attributes; their totals are folded into the enclosing node
+        i.gengy_labeled = True
+        i.gengy_distance_to_term = distance_to_term
+        i.gengy_nodes = number_of_nodes
+        i.gengy_weighted_nodes = weighted_number_of_nodes
+        i.gengy_types_this_way = types_this_way
     return number_of_nodes, distance_to_term, types_this_way, weighted_number_of_nodes
 
 
